@@ -1,13 +1,12 @@
 SPECIFICATION MCSpec
 CONSTANTS
- Objs = {1, 2}
+ Objs = {1}
  Mode = "coded"
  Defect = "none"
- Cfgs <- CEagerRel
+ Cfgs <- CObsAbs
  MaxCalls = 3
  Rounds = {1, 2}
- Steps = {500, 1000}
- MaxTime = 3000
-INVARIANTS Safety
-VIEW View
+ Steps = {1000}
+ MaxTime = 4000
+INVARIANTS QbftRoundHasTime
 CHECK_DEADLOCK FALSE
